@@ -889,6 +889,13 @@ func stringOperands(v ssa.Value, depth int) []ssa.Value {
 	case *ssa.MakeInterface:
 		return stringOperands(x.X, depth+1)
 	case *ssa.Call:
+		if bi, isB := x.Call.Value.(*ssa.Builtin); isB && bi.Name() == "append" && len(x.Call.Args) > 0 && isConstConv(x.Call.Args[0]) {
+			var out []ssa.Value
+			for _, a := range x.Call.Args {
+				out = append(out, stringOperands(a, depth+1)...)
+			}
+			return out
+		}
 		f := staticCallee(&x.Call)
 		if isFn(f, "fmt", "Sprintf") || isFn(f, "fmt", "Sprint") || isFn(f, "fmt", "Sprintln") {
 			var out []ssa.Value
@@ -988,6 +995,17 @@ func (c *Ctx) RuleRxRebuild() *Result {
 						found = true
 					}
 				case *ssa.Call:
+					// append([]byte("##!+ "), group...): a byte-level builder
+					if bi, isB := x.Call.Value.(*ssa.Builtin); isB && bi.Name() == "append" {
+						if _, isLit := constString(stripConv(x.Call.Args[0])); !isLit {
+							break // appending to something else (the indentation): not a rebuilt line
+						}
+						if !climb(x, depth+1) {
+							roots[x] = true
+						}
+						found = true
+						break
+					}
 					// a string-building helper of the repository (returns the text): the group, or the
 					// text built so far, arrives in its parameter; only what the helper returns counts
 					sf := staticFn(&x.Call)
@@ -1256,6 +1274,11 @@ func (c *Ctx) RuleRxRebuild() *Result {
 }
 
 func isBuilderOf(v ssa.Value, roots map[ssa.Value]bool) bool { return roots[v] }
+
+func isConstConv(v ssa.Value) bool {
+	_, ok := constString(stripConv(v))
+	return ok
+}
 
 // isLenTestOfSameElem: cond is len(X) compared with a constant where X is the same slice element as elemV
 // (another load of the same index of the same slice).
